@@ -625,7 +625,18 @@ struct Case {
         hi = std::max(hi, kv.second);
         maxv = std::max(maxv, kv.first[0]);
       }
-    ref::Vertex omega = maxv + 1;
+    auto efd = st.extend_filtration();
+    // the cone point is "an extra vertex": the only vertex of the result that the input did not have
+    ref::Vertex omega = 0;
+    {
+      std::vector<ref::Vertex> fresh;
+      for (auto v : st.complex_vertex_range())
+        if (!c.contains({ref::Vertex(v)})) fresh.push_back(ref::Vertex(v));
+      VF_CHECK(fresh.size() == 1, "extended-cone-point", "extend_filtration created " << fresh.size() << " new vertices");
+      omega = fresh[0];
+      VF_CHECK(omega != ref::Vertex(st.null_vertex()), "extended-cone-point-null", "the cone point is null_vertex()");
+    }
+    (void)maxv;
     auto scaled = [&](ref::Vertex v) { return hi == lo ? 0.0 : (c.value({v}) - lo) / (hi - lo); };
     ref::Complex want;
     std::map<ref::Simplex, std::pair<double, int>> origin;  // simplex -> (original vertex value, 0 UP / 1 DOWN / 2 EXTRA)
@@ -643,11 +654,11 @@ struct Case {
       origin[kv.first] = {vmx, 0};
       ref::Simplex cone = kv.first;
       cone.push_back(omega);
+      cone = ref::make_simplex(cone);
       want.s[cone] = 2 - mn;  // descending upper-star
       origin[cone] = {vmn, 1};
     }
     VF_ORACLE(want.is_closed() && want.is_monotone(), "cone model is not a filtered complex");
-    auto efd = st.extend_filtration();
     VF_CHECK(double(efd.minval) == lo && double(efd.maxval) == hi, "extended-minmax",
              "Extended_filtration_data (" << stc::fmt(double(efd.minval)) << "," << stc::fmt(double(efd.maxval)) << ") want (" << stc::fmt(lo)
                                           << "," << stc::fmt(hi) << ")");
